@@ -547,6 +547,55 @@ pub fn run(tier: Tier) -> i32 {
         }
     });
     let distinct = outcomes.lock().unwrap().len();
+    // an instruction written with an alias is the instruction written with the register: every
+    // mnemonic x every register position x r0..r31, with no device and on devices of each kind -
+    // same bytes, or both refused
+    let n_alias_pairs = AtomicU64::new(0);
+    {
+        use crate::checks::c04;
+        use rayon::prelude::*;
+        let cases = c04::gen_cases(Tier::Quick, crate::isa::Core::Full);
+        // (mnemonic, operand position, register) -> literal text / alias text
+        let mut lit: BTreeMap<(String, usize, String), String> = BTreeMap::new();
+        let mut ali: Vec<(String, usize, String, String, String)> = vec![];
+        for c in cases.iter() {
+            if c.cat == "register" {
+                lit.insert((c.ic.text(), c.pos, c.ic.mnem.to_string()), c.text.clone());
+            }
+        }
+        for c in cases.iter() {
+            if c.cat == "register-alias" {
+                if let Some(l) = lit.get(&(c.ic.text(), c.pos, c.ic.mnem.to_string())) {
+                    let i = c.text.find(c04::ALIAS).unwrap();
+                    let n: String = c.text[i + c04::ALIAS.len()..].chars().take_while(|ch| ch.is_ascii_digit()).collect();
+                    ali.push((c.ic.mnem.to_string(), c.pos, n, l.clone(), c.text.clone()));
+                }
+            }
+        }
+        let devices = ["", "ATtiny20", "ATtiny11", "ATmega8", "AT90S1200", "ATmega2560"];
+        ali.par_iter().for_each(|(mnem, pos, n, literal, alias)| {
+            for dev in devices {
+                let devline = if dev.is_empty() { String::new() } else { format!(".device {}\n", dev) };
+                let s_lit = format!("{}{}\n", devline, literal);
+                let s_ali = format!("{}.def {}{} = r{}\n{}\n", devline, c04::ALIAS, n, n, alias);
+                let (o1, o2) = (sut::build_str(&s_lit), sut::build_str(&s_ali));
+                n_alias_pairs.fetch_add(1, Ordering::Relaxed);
+                let same = match (&o1, &o2) {
+                    (Outcome::Ok(a), Outcome::Ok(b)) => a.code == b.code,
+                    (Outcome::Err(_), Outcome::Err(_)) => true,
+                    _ => false,
+                };
+                if !same {
+                    rep.violation(
+                        &format!("C10/alias-differs-from-register/mnem={}/position={}/device={}", mnem, pos, if dev.is_empty() { "none" } else { dev }),
+                        || format!("`{}` gives {} but with `.def {}{} = r{}` the line `{}` gives {}", literal, o1.brief(), c04::ALIAS, n, n, alias, o2.brief()),
+                        || json!({"kind": "build_str", "source": s_ali, "register_form": s_lit, "expected": o1.to_json(), "observed": o2.to_json()}),
+                    );
+                }
+            }
+        });
+    }
+    rep.guard(n_alias_pairs.load(Ordering::Relaxed) > 5000, "fewer than 5000 alias/register pairs");
     rep.guard(ex.states > 200, "fewer than 200 model states");
     rep.guard(n_ok.load(Ordering::Relaxed) > 1000 && n_err.load(Ordering::Relaxed) > 1000, "need both Ok and Err outcomes");
     rep.guard(distinct > 200, "fewer than 200 distinct observed images");
@@ -556,6 +605,7 @@ pub fn run(tier: Tier) -> i32 {
     rep.assume("name pools are disjoint per kind; .equ redefinition, .def of a bound alias and .undef of an unbound name are not pinned by the statement and are never generated");
     rep.assume("every defining and referring occurrence is spelled in an independently chosen letter case (lower, UPPER, Mixed)");
     let coverage = cov(json!({
+        "alias_versus_register_pairs": n_alias_pairs.load(Ordering::Relaxed),
         "states": ex.states,
         "transitions": ex.transitions,
         "traces_validated_against_impl": traces,
